@@ -22,7 +22,7 @@ ASSUMPTIONS = ["model of the acceptance rules and of expansion is written from t
                "canonical comparison: unordered nested tuples of case-folded short-form tag text"]
 MIN_MONITOR_EVALS = {"candidate-verdict": 500, "expansion-equals-model": 500, "expand-idempotent": 500,
                      "shrink-inverts-expand": 500, "history-step-invariant": 2000, "def-expand-validation": 300,
-                     "columnwise-agrees": 100, "duplicate-ignored": 50, "def-expand-unplugged-content": 20}
+                     "columnwise-agrees": 100, "table-object-agrees": 50, "duplicate-ignored": 50, "def-expand-unplugged-content": 20}
 VERSIONS = {"quick": ["8.3.0", "8.2.0", "score_2.0.0"], "thorough": ["8.3.0", "8.2.0", "8.1.0", "8.0.0", "score_2.0.0",
                                                                      "score_1.1.0", "testlib_3.0.0"]}
 
@@ -432,6 +432,24 @@ def check_columnwise(case, rec):
         if cn(got_s) != per_shr_c:
             rec.violation(f"df_util.shrink_defs ({form}) disagrees with per-string shrinking", case,
                           key="shrink-defs-frame-noop" if form == "frame" else None)
+    # the same through the table object's own methods (they work on its HED columns, in place)
+    rec.mon("table-object-agrees")
+    try:
+        from hed.models.tabular_input import TabularInput
+        ti = TabularInput(pd.DataFrame({"onset": [str(i + 1) for i in range(len(texts))], "HED": list(texts)}))
+        ti.expand_defs(schema, dd)
+        got_e = list(ti.dataframe["HED"])
+        ti.shrink_defs(schema)
+        got_s = list(ti.dataframe["HED"])
+    except Exception as ex:  # noqa
+        rec.violation(f"expand_defs / shrink_defs of a table object raised {type(ex).__name__}", case,
+                      key="table-object-defs-import" if isinstance(ex, ImportError) else None)
+        got_e = None
+    if got_e is not None:
+        if cn(got_e) != per_exp_c:
+            rec.violation("expand_defs of a table object disagrees with per-string expansion", case)
+        if cn(got_s) != per_shr_c:
+            rec.violation("shrink_defs of a table object disagrees with per-string shrinking", case)
     # gathering definitions back from the expanded strings
     try:
         gathered, ambiguous, errors = df_util.process_def_expands(per_exp, schema, known_defs=case["defs"])
